@@ -285,7 +285,9 @@ func verifC19ReadHead(path string, jsonOnly bool) (string, bool) {
 // WriteControl START (LJH 2.2, LJH3 and, when offChans is not empty, OFF with projectors loaded on exactly those channel indices) with
 // base path `base`, publishes one record per stream so that every file and header comes into being,
 // issues STOP, and reports names and headers. Holds the package-level publication channels meanwhile.
-func VerifC19WriteStart(ds *AnySource, base string, npre, nsamp int, offChans []int) (out VerifC19Files) {
+// mapPixels >= 0 passes a pixel map with that many pixels the way SourceControl.WriteControl passes the
+// map server's map (config.MapInternalOnly); mapPixels < 0: no map loaded.
+func VerifC19WriteStart(ds *AnySource, base string, npre, nsamp int, offChans []int, mapPixels int) (out VerifC19Files) {
 	withOFF := len(offChans) > 0
 	verifBenchMu.Lock()
 	defer verifBenchMu.Unlock()
@@ -341,6 +343,13 @@ func VerifC19WriteStart(ds *AnySource, base string, npre, nsamp int, offChans []
 		}
 	}
 	cfg := &WriteControlConfig{Request: "START", Path: base, WriteLJH22: true, WriteLJH3: true, WriteOFF: withOFF}
+	if mapPixels >= 0 {
+		m := &Map{Spacing: 1, Filename: "verif_c19.map", Pixels: make([]Pixel, mapPixels)}
+		for j := range m.Pixels {
+			m.Pixels[j] = Pixel{X: 100 + j, Y: 2 * j, Name: fmt.Sprintf("px%d", j+1)}
+		}
+		cfg.MapInternalOnly = m
+	}
 	if err := ds.WriteControl(cfg); err != nil {
 		out.StartErr = err.Error()
 		return out
